@@ -207,7 +207,7 @@ def c02_cases(rng, tier):
     for src in P2.repeated_chain_programs(rng, 120 if tier != 'thorough' else 800):
         cases.append({'src': src, 'alone': None, 'kind': 'repeated-chain'})
     for c in P3.special_float_chain_programs() + P3.chain_junction_programs(rng, 80 if tier != 'thorough' else 600) + P4.chain_block_shape_programs(rng, 150 if tier != 'thorough' else 1000) + P4.jump_only_branch_programs() + \
-             P5.chain_then_jump_programs(rng, 60 if tier != 'thorough' else 400):
+             P5.chain_then_jump_programs(rng, 60 if tier != 'thorough' else 400) + P5.recursive_condition_programs():
         cases.append(dict(c, alone=None))
     return cases
 
@@ -289,6 +289,7 @@ def c03_cases(rng, tier):
     cases += P3.nested_loop_return_programs(rng, 60 if tier != 'thorough' else 400)
     cases += P4.many_locals_programs(rng, 80 if tier != 'thorough' else 500)
     cases += P5.jump_only_exit_programs(rng, 60 if tier != 'thorough' else 400)
+    cases += P5.continue_after_block_programs(rng, 40 if tier != 'thorough' else 300)
     return cases
 
 
@@ -363,6 +364,7 @@ def c05_cases(rng, tier):
     cases += P3.closing_return_programs(rng, 80 if tier != 'thorough' else 500)
     cases += P4.higher_order_programs(rng, 80 if tier != 'thorough' else 500) + P4.self_tail_call_programs(rng, 40 if tier != 'thorough' else 300)
     cases += P5.surplus_argument_programs(rng, 60 if tier != 'thorough' else 400)
+    cases += P5.prefix_return_programs()
     cases += P3.nested_loop_return_programs(rng, 20 if tier != 'thorough' else 100)
     return cases
 
@@ -468,6 +470,7 @@ def c06_cases(rng, tier):
     k4 = 60 if tier != 'thorough' else 400
     cases += P4.assignment_order_programs(rng, k4) + P4.expression_statement_programs(rng, k4) + P4.concat_nested_identity_programs(rng, k4) + P4.shadowed_scalar_index_programs()
     cases += P5.held_while_callee_allocates_programs() + P5.multi_level_assignment_programs(rng, 20 if tier != 'thorough' else 150)
+    cases += P5.fractional_index_programs(rng, 20 if tier != 'thorough' else 150) + P5.record_only_gc_programs()
     return cases
 
 
@@ -737,6 +740,7 @@ def c07_programs(rng, tier):
     for c in P3.temporaries_programs(rng, 2):
         cases.append(dict(c, scheds=['e', 'n', '0' * 211 + '1']))
     cases += P4.gc_root_programs(rng, 10 if tier != 'thorough' else 60)
+    cases += P5.record_only_gc_programs()
     return cases
 
 
@@ -748,6 +752,7 @@ def c08_programs(rng, tier):
         'concat': 'নাম ট = [ই] + [ই, ই];', 'split': 'নাম ট = _স্ট্রিং-স্প্লিট("a,b", ",");', 'split-empty': 'নাম ট = _স্ট্রিং-স্প্লিট("", ",");',
         'nested': 'নাম ট = [[ই], @{"k" -> [ই],}];', 'mixed': 'নাম ট = [ই] + _স্ট্রিং-স্প্লিট("x y", " "); নাম ঠ = @{"a" -> ট,};',
         'index-write': 'রাখা[০] = ই;', 'cycle': 'নাম ট = [ই]; ট[০] = ট;', 'reccycle': 'নাম ট = @{"a" -> ১,}; ট["a"] = ট;',
+        'continue-in-if': 'নাম ট = [ই, ই]; যদি ই % ২ == ০ { আবার; } নাম ঠ = @{"a" -> ট,};', 'continue-nested': 'নাম ট = [ই]; যদি ই % ৩ != ০ { { আবার; } } নাম ঠ = [ট];',
     }
     preludes = {'': [],
                 'after-records-': ['নাম পূ = ০;', 'লুপ {', '    যদি পূ >= ৭০০ {', '        থামাও;', '    }', '    পূ = পূ + ১;', '    নাম পূর = @{"a" -> পূ,};', '} আবার;'],
@@ -851,7 +856,7 @@ def c15_cases(rng, tier):
                       'files': [('a.pakhi', prog(pre + ['মডিউল খ = "b.pakhi";', 'দেখাও "a";'])), ('b.pakhi', prog(pre + ['মডিউল গ = "a.pakhi";', 'দেখাও "b";']))], 'kind': 'inner-cycle'})
         cases.append({'src': prog(['মডিউল ক = "a.pakhi";', 'দেখাও "main";']),
                       'files': [('a.pakhi', prog(pre + ['মডিউল খ = "b.pakhi";', 'দেখাও "a";'])), ('b.pakhi', prog(pre + ['মডিউল গ = "c.pakhi";', 'দেখাও "b";'])), ('c.pakhi', prog(pre + ['মডিউল ঘ = "b.pakhi";', 'দেখাও "c";']))], 'kind': 'inner-cycle'})
-    cases += P3.import_graph_oddities() + P3.module_alias_programs() + P4.reimport_programs() + P4.unfinished_module_programs() + P5.module_ending_with_import_programs()
+    cases += P3.import_graph_oddities() + P3.module_alias_programs() + P4.reimport_programs() + P4.unfinished_module_programs() + P5.module_ending_with_import_programs() + P5.dirname_import_programs()
     for stmt in P4.IMPORT_FORMS2:
         cases.append({'src': prog(['দেখাও "আগে";', stmt, 'দেখাও "পরে";']), 'files': [('mod.pakhi', 'দেখাও "mod";\n')], 'kind': 'import-forms'})
     return cases
@@ -895,7 +900,7 @@ def c14_cases(rng, tier):
                            'দেখাও %s/ছায়া(৩, ৪);' % aliases[i], 'দেখাও %s/মান;' % aliases[i]]
         main_lines += ['দেখাও মান;', 'মান = ৫;', 'দেখাও %s/মান;' % aliases[0], 'দেখাও তালিকা;' if rng.random() < 0.3 else 'দেখাও "শেষ";', 'দেখাও _রিড-ফাইল(_ডাইরেক্টরি + "root.txt");']
         cases.append({'src': prog(main_lines), 'files': mods + datafiles, 'kind': 'modules', 'main': 'app/main.pakhi'})
-    cases += P3.module_alias_programs() + [c for c in P3.import_graph_oddities() if c['kind'] in ('chain-slash-alias', 'diamond-slash-alias', 'case-distinct-files')] + P4.reimport_programs() + P5.module_ending_with_import_programs()
+    cases += P3.module_alias_programs() + [c for c in P3.import_graph_oddities() if c['kind'] in ('chain-slash-alias', 'diamond-slash-alias', 'case-distinct-files')] + P4.reimport_programs() + P5.module_ending_with_import_programs() + P5.dirname_import_programs()
     return cases
 
 
@@ -948,6 +953,7 @@ def c19_cases(rng, tier):
     for a_ in fl1:
         for b_ in fl2: cases.append({'p1': prog(a_), 'p2': prog(b_), 'kind': 'compose free-list-history', 'budget': 60000})
     cases += P5.shared_module_fragments()
+    cases += P5.residue_fragments()
     zero_p1 = [['নাম গো = ৩;', 'লুপ {', '    দেখাও গো;', '    যদি গো == ০ {', '        থামাও;', '    }', '    গো = গো - ১;', '} আবার;'], ['দেখাও ০;'], ['দেখাও -০;'], ['_দেখাও [০];', 'দেখাও "";'], ['নাম আর = @{"ক" -> ১,};', '_দেখাও আর;', 'দেখাও "";']]
     zero_p2 = [['দেখাও ০ * -৫;', 'দেখাও [০ * -৫];'], ['দেখাও ০;', 'দেখাও [-০, ০];'], ['নাম দ্বির = @{"ক" -> ১,};', 'দেখাও [দ্বির, [দ্বির]];', '_দেখাও দ্বির;', 'দেখাও [দ্বির];']]
     for a_ in zero_p1:
